@@ -926,9 +926,39 @@ func flow(rng *hx.Rng, zeros, passKind, n, p int, lite bool) {
 	if s, err := signerAfterUnlock(ks, acc); err != nil || s != hex.EncodeToString(addr[:]) {
 		violate("signer-mismatch", "KeyStore.Unlock", in, fmt.Sprintf("signer %s err %v want %x", s, err, addr))
 	}
+	// "with any other passphrase unlocking fails with an error" also when the account is ALREADY unlocked (indefinitely or
+	// with a timeout): the passphrase must be checked before anything else; the existing unlock is not disturbed.
+	for _, w := range []string{misses[0], misses[len(misses)-1]} {
+		run.Current("flow Unlock wrong while unlocked")
+		if err := ks.Unlock(acc, w); err == nil {
+			violate("wrong-pass-accepted", "KeyStore.Unlock (already unlocked) "+format, map[string]interface{}{"key": in["key"], "passphrase": pw, "tried": w}, "Unlock with another passphrase succeeded on an already unlocked account")
+		}
+		if err := ks.TimedUnlock(acc, w, time.Hour); err == nil {
+			violate("wrong-pass-accepted", "KeyStore.TimedUnlock (already unlocked) "+format, map[string]interface{}{"key": in["key"], "passphrase": pw, "tried": w}, "TimedUnlock with another passphrase succeeded on an already unlocked account")
+		}
+		run.Count("out:KeyStore.Unlock(already unlocked):W:err")
+	}
+	if s, err := signerAfterUnlock(ks, acc); err != nil || s != hex.EncodeToString(addr[:]) {
+		flowFail("SignHash after a refused second Unlock", in, fmt.Sprintf("signer %s err %v", s, err))
+	}
 	ks.Lock(acc.Address)
 	if _, err := ks.SignHash(acc, signHash); err != keystore.ErrLocked {
 		flowFail("SignHash after Lock", in, fmt.Sprintf("%v", err))
+	}
+	// the same with a timed unlock in place
+	if err := ks.TimedUnlock(acc, pw, time.Hour); err != nil {
+		violate("roundtrip", "KeyStore.TimedUnlock "+format, in, fmt.Sprintf("TimedUnlock with the right passphrase: %v", err))
+	} else {
+		if err := ks.Unlock(acc, misses[0]); err == nil {
+			violate("wrong-pass-accepted", "KeyStore.Unlock (timed unlock active) "+format, map[string]interface{}{"key": in["key"], "passphrase": pw, "tried": misses[0]}, "Unlock with another passphrase succeeded while a timed unlock is active")
+		}
+		if err := ks.TimedUnlock(acc, misses[0], time.Hour); err == nil {
+			violate("wrong-pass-accepted", "KeyStore.TimedUnlock (timed unlock active) "+format, map[string]interface{}{"key": in["key"], "passphrase": pw, "tried": misses[0]}, "TimedUnlock with another passphrase succeeded while a timed unlock is active")
+		}
+		ks.Lock(acc.Address)
+		if _, err := ks.SignHash(acc, signHash); err != keystore.ErrLocked {
+			flowFail("SignHash after Lock of a timed unlock", in, fmt.Sprintf("%v", err))
+		}
 	}
 	// Export / Import
 	pw2, pw3, pw4 := genPass(rng, rng.Intn(6)), genPass(rng, rng.Intn(6)), genPass(rng, 5)
